@@ -17,6 +17,8 @@
 # along with Eos. If not, see <http://www.gnu.org/licenses/>.
 # ==============================================================================
 
+from numbers import Real
+
 from eos.const.eos import ModAffecteeFilter
 from eos.const.eos import ModAggregateMode
 from eos.const.eos import ModDomain
@@ -79,53 +81,63 @@ class ModInfoconverter:
         return DogmaModifier(
             affectee_filter=ModAffecteeFilter.item,
             affectee_domain=cls._get_domain(mod_info),
-            affectee_attr_id=int(mod_info['modifiedAttributeID']),
+            affectee_attr_id=cls._get_int(mod_info, 'modifiedAttributeID'),
             operator=cls._get_operator(mod_info),
             aggregate_mode=ModAggregateMode.stack,
-            affector_attr_id=int(mod_info['modifyingAttributeID']))
+            affector_attr_id=cls._get_int(mod_info, 'modifyingAttributeID'))
 
     @classmethod
     def _handle_domain_mod(cls, mod_info):
         return DogmaModifier(
             affectee_filter=ModAffecteeFilter.domain,
             affectee_domain=cls._get_domain(mod_info),
-            affectee_attr_id=int(mod_info['modifiedAttributeID']),
+            affectee_attr_id=cls._get_int(mod_info, 'modifiedAttributeID'),
             operator=cls._get_operator(mod_info),
             aggregate_mode=ModAggregateMode.stack,
-            affector_attr_id=int(mod_info['modifyingAttributeID']))
+            affector_attr_id=cls._get_int(mod_info, 'modifyingAttributeID'))
 
     @classmethod
     def _handle_domain_group_mod(cls, mod_info):
         return DogmaModifier(
             affectee_filter=ModAffecteeFilter.domain_group,
             affectee_domain=cls._get_domain(mod_info),
-            affectee_filter_extra_arg=int(mod_info['groupID']),
-            affectee_attr_id=int(mod_info['modifiedAttributeID']),
+            affectee_filter_extra_arg=cls._get_int(mod_info, 'groupID'),
+            affectee_attr_id=cls._get_int(mod_info, 'modifiedAttributeID'),
             operator=cls._get_operator(mod_info),
             aggregate_mode=ModAggregateMode.stack,
-            affector_attr_id=int(mod_info['modifyingAttributeID']))
+            affector_attr_id=cls._get_int(mod_info, 'modifyingAttributeID'))
 
     @classmethod
     def _handle_domain_skillrq_mod(cls, mod_info):
         return DogmaModifier(
             affectee_filter=ModAffecteeFilter.domain_skillrq,
             affectee_domain=cls._get_domain(mod_info),
-            affectee_filter_extra_arg=int(mod_info['skillTypeID']),
-            affectee_attr_id=int(mod_info['modifiedAttributeID']),
+            affectee_filter_extra_arg=cls._get_int(mod_info, 'skillTypeID'),
+            affectee_attr_id=cls._get_int(mod_info, 'modifiedAttributeID'),
             operator=cls._get_operator(mod_info),
             aggregate_mode=ModAggregateMode.stack,
-            affector_attr_id=int(mod_info['modifyingAttributeID']))
+            affector_attr_id=cls._get_int(mod_info, 'modifyingAttributeID'))
 
     @classmethod
     def _handle_owner_skillrq_mod(cls, mod_info):
         return DogmaModifier(
             affectee_filter=ModAffecteeFilter.owner_skillrq,
             affectee_domain=cls._get_domain(mod_info),
-            affectee_filter_extra_arg=int(mod_info['skillTypeID']),
-            affectee_attr_id=int(mod_info['modifiedAttributeID']),
+            affectee_filter_extra_arg=cls._get_int(mod_info, 'skillTypeID'),
+            affectee_attr_id=cls._get_int(mod_info, 'modifiedAttributeID'),
             operator=cls._get_operator(mod_info),
             aggregate_mode=ModAggregateMode.stack,
-            affector_attr_id=int(mod_info['modifyingAttributeID']))
+            affector_attr_id=cls._get_int(mod_info, 'modifyingAttributeID'))
+
+    @staticmethod
+    def _get_int(mod_info, key):
+        value = mod_info[key]
+        result = int(value)
+        # int() silently drops fractional part of numbers, we do not want
+        # to refer different entity when ID is not integer
+        if isinstance(value, Real) and result != value:
+            raise ValueError('{} is not an integer'.format(value))
+        return result
 
     @staticmethod
     def _get_domain(mod_info):
